@@ -5,6 +5,10 @@ claim('C06', 'model_checking',
       'SMT equivalence (z3) of expression tree vs re-parsed backend text, compiler replay', 'E-SMT', 'DESIGN.md#C06')
 
 NA.update({
+ 'C19': 'planned (regex -> z3 against reference statement grammars) but not built in the time available; not replaced by another technique',
+ 'C35': 'planned (C-semantics interpretation of the transpiled kernel + ISO-C wrapper) but not built in the time available',
+ 'C36': 'planned (Python-semantics interpretation of the generated function) but not built in the time available',
+ 'C39': 'planned (scheduler-driven parametrisation on scratch projects, entry signature changes) but not built in the time available',
  'C02': 'pure text/structure identity over programs: no value domain for a solver (behavioural shadow covered by C01)',
  'C14': 'tree/node-identity property; CrossHair cannot execute Transformer (proxy intolerance on node hashing) and a hand encoding would model, not run, the code',
  'C15': 'pure structural search result; visitors not executable symbolically, no value domain',
@@ -98,3 +102,15 @@ claim('C04', 'model_checking',
       'CrossHair executes the real JoinableStringList wrapping with two symbolic item lengths per layout (separators, nesting, separable flag, indentation, quoted strings, blanks, width 132) and confirms over all paths that removing the continuation markers gives the unwrapped token sequence and that no line exceeds the width unless a single unbreakable piece does.',
       'Trusted: CrossHair + z3. Outside: whole-program fgen (IR is not executable under CrossHair), comments appended with comment=.',
       'CrossHair symbolic execution with symbolic string lengths', 'E-XH', 'DESIGN.md#C04')
+claim('C05', 'model_checking',
+      'For every rule of the live sanitize registry and every untargeted context (string literals in four statement kinds, trailing and full-line comments, identifier infix) z3 (string theory, live pattern translated from re._parser.parse) decides whether a payload of <= 24 characters exists on which the rule fires; unsat = the rule can never touch that context; every sat model is replayed through the real FP frontend + fgen and counts as a violation only if parsing fails or the payload is not preserved.',
+      'Trusted: vlib/rx.py (self-tested against Python re on every run), z3 sequence theory. Outside: continuation lines, the targeted OPEN statements themselves.',
+      'regex -> z3 regular-expression membership over a symbolic payload string, replay through the real frontend', 'E-RX', 'DESIGN.md#C05')
+claim('C11', 'model_checking',
+      'CrossHair explores all pairs of a pool of 45 expression nodes of every kind in spellings differing in letter case (quick: adjacent pairs) plus IntLiteral / FloatLiteral laws with symbolic values and kinds: equality symmetric and case-insensitive, equal nodes hash equal, != is the negation, usability as dict keys, and the 1:n == n shortcut is the only cross-kind equality.',
+      'Trusted: CrossHair + z3; pool classes in harness/C11_expr_eq.py. For the pool part the solver contributes path feasibility / exhaustiveness only.',
+      'CrossHair symbolic execution over pool-indexed nodes and symbolic literal values', 'E-XH', 'DESIGN.md#C11')
+claim('C20', 'model_checking',
+      'PARTIAL (span-arithmetic kernel only): CrossHair confirms over all paths, for symbolic text over {a, b, newline} (length <= 4-6), symbolic character span and first line number, that Source objects derived by clone_with_span / clone_lines / clone_with_string / join_source_list from a Source that matches the file are again consistent with the file.',
+      'Which span each frontend attaches to which node kind needs fparser / the regex frontend under CrossHair (not executable): NOT claimed.',
+      'CrossHair symbolic execution over symbolic strings and spans', 'E-XH', 'DESIGN.md#C20')
